@@ -199,19 +199,44 @@ def _format_parts(e):
 
 
 def _guard_for(fd, var, use):
-    """`if re.match(P, var) is None: raise` as a top-level statement of fd before `use` (so it dominates it)"""
+    """`if re.match(P, var) is None: raise` (or `not re.match(..)`, or the same through a pattern object compiled at module level or
+    earlier in the function) as a top-level statement of fd before `use`, so that it dominates it.  Returns (effective pattern
+    anchored at the start as re.match does, node)."""
+    mod = fd
+    while mod is not None and not isinstance(mod, ast.Module):
+        mod = getattr(mod, 'parent', None)
+    compiled = {}
+    for scope in ([mod.body] if mod is not None else []) + [fd.body]:
+        for st in scope:
+            if isinstance(st, ast.Assign) and isinstance(st.targets[0], ast.Name) and isinstance(st.value, ast.Call) and dotted(st.value.func) == 're.compile' and st.value.args and isinstance(st.value.args[0], ast.Constant) and len(st.value.args) == 1 and not st.value.keywords:
+                compiled[st.targets[0].id] = st.value.args[0].value
+
+    def match_call(e):
+        """(pattern, kind) when e is re.match(P, var) / re.fullmatch(P, var) / X.match(var) with X a compiled constant pattern"""
+        if not isinstance(e, ast.Call):
+            return None
+        d = dotted(e.func) or ''
+        if d in ('re.match', 're.fullmatch') and len(e.args) == 2 and is_name(e.args[1], var) and isinstance(e.args[0], ast.Constant):
+            return e.args[0].value, d.split('.')[1]
+        if isinstance(e.func, ast.Attribute) and e.func.attr in ('match', 'fullmatch') and isinstance(e.func.value, ast.Name) and e.func.value.id in compiled and len(e.args) == 1 and is_name(e.args[0], var):
+            return compiled[e.func.value.id], e.func.attr
+        return None
     for st in fd.body:
         if st.lineno >= use.lineno:
             break
         if isinstance(st, ast.If) and not st.orelse and st.body and isinstance(st.body[-1], ast.Raise):
             t = st.test
-            if isinstance(t, ast.Compare) and len(t.ops) == 1 and isinstance(t.ops[0], ast.Is) and isinstance(t.comparators[0], ast.Constant) and t.comparators[0].value is None and isinstance(t.left, ast.Call) and dotted(t.left.func) in ('re.match', 're.fullmatch') and len(t.left.args) == 2 and is_name(t.left.args[1], var) and isinstance(t.left.args[0], ast.Constant):
-                pat = t.left.args[0].value
-                if dotted(t.left.func) == 're.fullmatch':
-                    pat = '^' + pat.lstrip('^').rstrip('$') + '$'
+            mc = None
+            if isinstance(t, ast.Compare) and len(t.ops) == 1 and isinstance(t.ops[0], (ast.Is, ast.Eq)) and isinstance(t.comparators[0], ast.Constant) and t.comparators[0].value is None:
+                mc = match_call(t.left)
+            elif isinstance(t, ast.UnaryOp) and isinstance(t.op, ast.Not):
+                mc = match_call(t.operand)
+            if mc is not None:
+                pat, kind = mc
+                pat = '^' + (pat[1:] if pat.startswith('^') else pat)      # match() is anchored at the start
+                if kind == 'fullmatch' and not (pat.endswith('$') or pat.endswith('\\Z')):
+                    pat = pat + '$'
                 return pat, st
-            if isinstance(t, ast.UnaryOp) and isinstance(t.op, ast.Not) and isinstance(t.operand, ast.Call) and dotted(t.operand.func) in ('re.match', 're.fullmatch') and len(t.operand.args) == 2 and is_name(t.operand.args[1], var) and isinstance(t.operand.args[0], ast.Constant):
-                return t.operand.args[0].value, st
     return None
 
 
